@@ -45,6 +45,9 @@ def variants(cfg, tier):
          ("killed-after-parity-rewritten", [("write", "d2", "B", 900, 0), ("cmd", "sync", "--test-kill-after-sync"),
                                             ("write", "d2", "B", 900, 1), ("cmd", "sync", "-B", "1")])]
     if cfg.levels >= 2 or tier == "thorough":
+        # a file removed, the sync that followed killed after the parity update: the content still lists its positions as DELETED
+        # (with the old hashes) while the parity no longer holds them
+        v += [("deleted-killed-after-parity", [("rm", "d2", "X"), ("cmd", "sync", "--test-kill-after-sync")])]
         # a replaced file whose stripes hold no block of any other disk (beyond the end of the other disks), still pending
         v += [("replaced-tail-beyond-other-disks", [("write", "d2", "F", 2048, 0), ("write", "d2", "T", 2048, 0), ("cmd", "sync"),
                                                     ("rm", "d2", "T"), ("write", "d2", "T2", 2048, 0), ("cmd", "sync", "-B", "1")])]
